@@ -29,7 +29,22 @@ RULE = ("cases = write scripts (write of any of the 12 integer types / &str / St
         "partial / interrupting / both), (2c) a multi-byte piece ends exactly at fill level BUF and the next call is write_char (directly "
         "or as Vec/tuple/out! separator or outln! newline). The number of write_all calls is NOT compared (when bytes reach the sink before "
         "flush/drop is not promised): it is logged in coverage.flush_count_diagnostic only. non-trivial = distinct in-domain case whose "
-        "final sink content is non-empty")
+        "final sink content is non-empty. Wave 3: (5b) words containing every ASCII byte that is not whitespace — NUL, the other control "
+        "characters, DEL — alone / first / middle / last in a word, as &str and String, in Vec, tuple, out!, outln!, and words of 123..65537 such "
+        "bytes, written and read back (`w` lines rt=1: compared with the value written, leaf by leaf; `r` lines: the values read are printed "
+        "and compared with the written values); strings of 1-/2-/3-/4-byte UTF-8 characters (every byte value a String can hold) at fill levels "
+        "around BUF; (8) `m` lines — several live objects on one thread: up to 8 slots holding Writers (each over its own sink of any kind) and "
+        "Readers (each over its own chunked/interrupting source), created, used INTERLEAVED, moved to another address, dropped and leaked "
+        "(mem::forget) in any order; a writer is reached through its inherent API (W/C/F/O/L) or through the public trait method "
+        "Writable::write(&v, &mut writer) called directly (T: no debug flush, so bytes are pending in the debug build too); (8a) writer A holds "
+        "pending bytes (8 ways) while writer B writes (10 pieces, up to > BUF) x creation order x {flush both, B dropped first, A moved, both "
+        "dropped at the end}; (8b) one writer, trait-method pieces of 38..41 bytes / big strings at every fill level BUF-d, then an inherent "
+        "call; a leaked writer followed by a new one; (8c) one Writer and one Reader alive together (reader holds buffered unread input while "
+        "the writer writes, writer holds pending bytes while the reader refills); (8d) random interleavings of 2..6 objects. Compared per `m` "
+        "line: for every writer the sink contents after each of its flushes and after its drop, every value a reader returns, in history "
+        "order; harness oracle fmt; in the debug build `ub`: after every inherent call the writer's sink holds everything written to it. "
+        "(9) `c` lines: ASCII characters (all 128 codes, NUL / control / DEL / the whitespace characters) written with write_char, the writer "
+        "dropped, every non-whitespace byte read back with read::<char>(), then is_eof()")
 ASSUMPTIONS = [
     "the Lean model of rlib_io::Writer is hand-written; it is tied to the code by running both on the same scripts in both profiles",
     "std's Write::write_all is trusted to be its documented loop: the model's flush hands a whole slice to the sink; that this loop "
@@ -41,6 +56,17 @@ ASSUMPTIONS = [
     "BUF is determined on every run, best effort: from writer.rs if a generic anchor matches, else observed on the real writer "
     "(first delivery when single characters are written); it only aims the boundary streams — by the theorems (every BUF >= 39, both "
     "profiles, every fill level) the delivered bytes do not depend on it. Structural source anchors are evidence notes only",
+]
+ASSUMPTIONS += [
+    "`m` lines: the model gives every Writer / Reader its own buffer (nothing shared between objects, nothing survives an object); its "
+    "specification side (per writer the concatenated standard formatting of the calls addressed to it, per reader C08's specification on "
+    "its own input) is proved equal to the model side for every history of valid calls (multi_driver) and to depend on the calls addressed "
+    "to that writer only (multi_isolated); that the real objects behave like that is the differential comparison. The harness's `fmt` field "
+    "is an independent format!-based oracle",
+    "`m` lines: moving an object (MV) is a move into a fresh heap allocation made while the old one is alive; a leaked writer's sink is not "
+    "looked at (how much a writer has delivered before flush/drop is not promised)",
+    "`c` lines and the read-back of words: the domain is ASCII (the Reader returns bytes as Latin-1 characters, so a non-ASCII String does not "
+    "read back as itself — C08 residue); non-ASCII strings (pattern kinds 2 and 4) are compared on the write side only",
 ]
 TRUSTED_EXTRA = ["std::io::Write::write_all"]
 MANIFEST = {
@@ -242,6 +268,67 @@ def extra(ctx):
     return []
 
 
+_MDROP = re.compile(r"\d:[DF]=(\d+):")
+
+
 def nontrivial(case, rec):
+    if case.startswith("m "):
+        # several live objects: some writer shows a non-empty text
+        return any(int(x) > 0 for x in _MDROP.findall(rec["model_line"]))
     m = _DROP.search(rec["model_line"])
     return bool(m) and int(m.group(1)) > 0
+
+
+# ---- second tie: writer.rs regenerated from the source text on every run (tools/rs2lean_writer.py) ---------------------------
+PROPS_SRC = "RlibModel.Props.C09Src"     # `src_*` theorems about the definitions regenerated from the source text
+ASSUMPTIONS.append(
+    "second tie: new/flush/reserve/write_bytes/write_char/Writer::write/Drop::drop, the &str and String chunk loops, the bodies of "
+    "write_unsigned!/write_signed! (all twelve integer instances), Vec<T> and the seven write_tuple! expansions of the hand-written model "
+    "are proved (theorems src_*_eq_model) to do what the definitions do that tools/rs2lean_writer.py regenerates from the text of "
+    "rlib/io/src/writer.rs on every run (Generated/WriterSrc.lean: the struct is the tuple (buffer, end, sink), usize = Nat with checked + and -, "
+    "the sink is an explicit oracle parameter whose write_all appends the whole slice — the contract the model assumes —, "
+    "#[cfg(debug_assertions)] statements are guarded by a profile parameter dbg, a bound T: Writable is a dictionary parameter, loops run on "
+    "fuel); stated through the abstraction pend = buf[..end] for every buffer content, every end <= buffer length, every sink, both profiles; "
+    "hypotheses: the buffer length (and a raw piece) is below 2^63 (so end + len cannot overflow usize), buffer length = BUF_SIZE for the "
+    "string chunk loops, an integer argument fits its type, enough fuel for the loops; trusted there: the translator, its reading of std in "
+    "Generated/IoWritePrelude.lean (write_all contract, slices, copy_from_slice, chunks / enumerate iterators, % and / with overflow checks, "
+    "unsigned_abs, BASE_10_LEN of rlib_num_traits taken as the model's base10len — the base_10_len! macro itself is compared as text only)")
+MANIFEST["text"] += (" Several live objects: for every history that creates, uses interleaved, moves, drops and leaks any number of Writers and Readers "
+                     "— a writer being reached through its inherent API or through Writable::write(&v, &mut w) directly — the model shows, per writer, exactly "
+                     "the text of the calls addressed to it and, per reader, C08's specification on its own input (multi_driver, multi_isolated, call_inv); "
+                     "a flush-per-write build holds nothing pending after any inherent call whatever was pending before (call_debug_flushed); ASCII characters "
+                     "written with write_char come back from read::<char>() under the harness's delivery (readback_chars_driver).")
+MANIFEST["technique"] += " + source-to-Lean translation of rlib/io/src/writer.rs regenerated and proved equal to the model on every run"
+MANIFEST["text"] += (" Second tie: the functions of writer.rs (new, flush, reserve, write_bytes, write_char, write, drop, the &str/String chunk loops, the "
+                     "write_unsigned!/write_signed! bodies, Vec<T>, tuples) are re-translated from the source text on every run and proved to refine the "
+                     "model for all buffer states, sinks and both profiles.")
+TRUSTED_EXTRA.append("tools/rs2lean_writer.py (+ the inherited rules of tools/rs2lean_reader.py) and lean/RlibModel/Generated/IoWritePrelude.lean "
+                     "(reading of std::io::Write::write_all, slices, copy_from_slice, chunks, enumerate, integer % and /, unsigned_abs, BASE_10_LEN)")
+
+WRITER_FNS = ["new", "flush", "reserve", "write_bytes", "write_char", "write", "drop", "str::write", "String::write", "write_unsigned!", "write_signed!",
+              "Vec::write", "write_tuple!"]
+
+_extract_buf = extract
+
+
+def extract(repo):
+    """BUF and the structural notes (above), then the translation of <repo>/rlib/io/src/writer.rs into Generated/WriterSrc.lean (written only
+    when its text changes).  A construct outside the translator's subset makes the second tie unavailable (problem with the SUBSET prefix);
+    the generated file then has no definitions, so the src_* theorems stop compiling as well (never a stale file left in place)."""
+    import sys
+    params, problems = _extract_buf(repo)
+    verif = os.path.dirname(os.path.dirname(os.path.abspath(__file__)))
+    tools = os.path.join(verif, "tools")
+    if tools not in sys.path:
+        sys.path.insert(0, tools)
+    import rs2lean_writer
+    rel = "rlib/io/src/writer.rs"
+    out = os.path.join(verif, "lean", "RlibModel", "Generated", "WriterSrc.lean")
+    info, p2 = rs2lean_writer.run(os.path.join(repo, rel), out, "Rlib.WriterSrc", rel, ID, "Writer", WRITER_FNS)
+    params.update({"translated_from": rel, "translated_functions": info.get("functions", []), "translated_loops": info.get("loops", []),
+                   "translated_instances": info.get("instances", {}),
+                   "not_translated": info.get("not_translated", []) + [
+                       "base_10_len! / fixed_size_integer! of rlib/num_traits/src/lib.rs (BASE_10_LEN is read as the model's Decimal.base10len; text anchor in structure_notes)",
+                       "output_macro.rs (out! / outln!: the model's Op.out; differential tie only)"],
+                   "generated_file": "lean/RlibModel/Generated/WriterSrc.lean", "generated_file_rewritten": info.get("rewritten", False)})
+    return params, problems + p2
